@@ -147,7 +147,34 @@ func (e *Engine) modelDraws() []*Draw {
 			terms = append(terms, "(bytelen "+d.Var+")", "(runelen "+d.Var+")")
 		}
 	}
-	vals := e.solver.Values(terms)
+	// prefer a model with short abstract strings (the native replay has to build them);
+	// if there is none, fall back to whatever model the solver has
+	var small *Term
+	for _, d := range e.draws {
+		if d.Kind == "astr" {
+			c := tBin("bvule", mkTerm("(bytelen "+d.Var+")", bvSort(64)), tBV(64, 64), "Bool")
+			if small == nil {
+				small = c
+			} else {
+				small = tAnd(small, c)
+			}
+		}
+	}
+	var vals []string
+	if small != nil {
+		e.solver.Push()
+		e.solver.Assert(small)
+		if e.solver.Check() == "sat" {
+			vals = e.solver.Values(terms)
+		}
+		e.solver.Pop()
+		if vals == nil && e.solver.Check() != "sat" {
+			panic(solverError{"model lost while looking for a small one"})
+		}
+	}
+	if vals == nil {
+		vals = e.solver.Values(terms)
+	}
 	out := make([]*Draw, 0, len(e.draws))
 	i := 0
 	for _, d := range e.draws {
@@ -207,6 +234,7 @@ func (e *Engine) runPath(entry *ssa.Function, prefix []int) {
 	e.excuses = map[string]*Term{}
 	e.strLits = map[string]*Term{}
 	e.symOrder = false
+	e.bufText = nil
 	e.nextID = 0
 	e.solver.Reset()
 	completed := false
